@@ -6,7 +6,14 @@ export CARGO_NET_OFFLINE=true
 python3 tools_rs2v.py >/dev/null   # coq/Gen/Scalar.v from /repo's current source text
 sh coq/mkproject.sh
 # -k: one file that does not compile must not block the others (each check builds its own target)
-( cd coq && timeout 7200 make -j16 -k >/dev/null 2>&1 || echo "setup: some Coq files did not compile (the checks that need them will say so)" )
+if ! ( cd coq && timeout 7200 make -j16 -k >../_build_coq.log 2>&1 ); then
+  # damaged build products (an interrupted or copied half-finished build): rebuild from the sources once
+  echo "setup: Coq build failed; cleaning compiled files and rebuilding once"; tail -5 _build_coq.log
+  find coq \( -name '*.vo' -o -name '*.vok' -o -name '*.vos' -o -name '*.glob' -o -name '.*.aux' \) -delete
+  rm -f coq/Makefile coq/Makefile.conf coq/.Makefile.d coq/_CoqProject
+  sh coq/mkproject.sh
+  ( cd coq && timeout 7200 make -j16 -k >../_build_coq.log 2>&1 ) || { echo "setup: some Coq files did not compile (the checks that need them will say so)"; grep -B2 -A8 "^Error" _build_coq.log | head -40; }
+fi
 mkdir -p _build
 [ -f harness/Cargo.lock ] || cp /repo/Cargo.lock harness/Cargo.lock
 python3 tools_build_harness.py || echo "setup: some harness bins did not build (the checks that need them will say so)"
